@@ -1121,6 +1121,15 @@ def gen_path_case(rng, flavour=None, thorough=False):
         else:
             srs = False
     tiny = method != 'gn_model_analytic' or srs
+    if method != 'gn_model_analytic':
+        # the GGN integration grid grows without bound as |beta2| -> 0 (tens of seconds per span): the fibres of a GGN case
+        # keep a dispersion well away from zero (negative values included), no slope / table crossing zero
+        for e in els:
+            if e['type'] in ('Fiber', 'RamanFiber'):
+                e['params'].pop('dispersion_slope', None)
+                e['params'].pop('dispersion_per_frequency', None)
+                if 'dispersion' in e['params'] and not 2.0e-6 <= abs(e['params']['dispersion']) <= 2.5e-5:
+                    e['params'].pop('dispersion')       # (a very large |beta2| times a wide comb is as slow)
     # GGN methods: which channels are computed (the others are interpolated): all of them, a number of equally spaced
     # ones, or an explicit short list; when only some are computed the comb may be larger for the same run time
     ggn_mode = rng.choice(['all', 'list', 'list', 'number', 'number']) if method != 'gn_model_analytic' else None
@@ -1140,9 +1149,9 @@ def gen_path_case(rng, flavour=None, thorough=False):
             sparse = ggn and ggn_mode != 'all'
             for k in range((3 if sparse else (rng.randint(2, 3) if thorough else 2)) if ggn
                            else (1 if tiny else rng.randint(1, 3))):
-                sw, br = rng.choice(SLOTS[:7])
+                sw, br = rng.choice(SLOTS[:5] if ggn else SLOTS[:7])
                 if sparse:
-                    nch = rng.randint(2, 5)         # groups of several carriers
+                    nch = rng.randint(2, 4)         # groups of several carriers
                 else:
                     nch = rng.randint(1, (4 if thorough else 3) if tiny else (6 if not thorough else 14))
                 if load in ('one', 'two'):
@@ -1904,6 +1913,12 @@ def process_path(ctx, case, path_oracle_fn, sample_k, terms, meta):
         return False
     finally:
         ctx.extra.setdefault('path_seconds', {}).setdefault(case['flavour'], []).append(round(time.time() - t0, 2))
+        if time.time() - t0 > 8:
+            ctx.extra.setdefault('slow_paths', []).append(
+                {'s': round(time.time() - t0, 1), 'flavour': case['flavour'], 'sim': case['sim'], 'corpus': case.get('_corpus'),
+                 'spectrum': case['spectrum'], 'dispersion': [{k: v for k, v in e['params'].items() if 'disp' in k}
+                                                              for e in case['topo']['elements'] if e['type'] == 'Fiber'
+                                                              and any('disp' in k for k in e['params'])]})
     if res is None:
         ctx.count('path_no_route')
         return False
